@@ -52,7 +52,7 @@ CLAIMED = {
     "C06": (
         "Bounded symbolic execution of every Less/Equal/Kind implementation over an 18-kind value universe built through the real "
         "constructors: trichotomy on all kind pairs, transitivity on triples inside the number/tuple/sequence families, and Rank/"
-        "OrderBy (with GOROOT sort interpreted) against 'number of strictly smaller keys' / non-decreasing permutation; "
+        "OrderBy (with GOROOT sort interpreted) against 'number of strictly smaller keys' / non-decreasing permutation, and the OrderedValues() sequence used for printing sets of mixed kinds is non-decreasing under <; "
         "SMT-decided per path, counterexamples replayed natively.",
         "numbers: any non-NaN float64 at top level, integers in [-2,2] nested; sequences L<=2; sets/dicts/relations <=2 members; "
         "relations of 2..4 rows for rank/orderby; NaN excluded by assumption"),
